@@ -127,7 +127,7 @@ def main(argv):
                 + (f"  cex={r.get('cex')}" if r.get('status') == 'REFUTED' and not r.get('twin') else '')
                 + (f"\n     {str(r.get('error'))[-1500:]}" if r.get('status') == 'ERROR' else ''))
 
-    harness_errors, violations, replays_done = [], [], 0
+    harness_errors, violations, replays_done, engine_notes = [], [], 0, []
     # 1. candidate counterexamples -> concrete replay against /repo, no tracer
     for r in results:
         if r.get('twin'):
@@ -155,7 +155,13 @@ def main(argv):
                 harness_errors.append(f"{r['shard']}: solver counterexample {r['cex']} did not reproduce concretely (replay -> {tag}); "
                                       f"encoding or stub wrong - not reported as a violation")
             elif tag in known_tags:
-                harness_errors.append(f"{r['shard']}: replay gives known tag {tag} but the symbolic run refuted: tags differ between engines")
+                # the concrete run (ground truth) shows a LISTED finding; the symbolic path computed another signature for it
+                # (its model passes through float comparisons CrossHair approximates).  Nothing new is shown and nothing is
+                # confirmed: the shard is inconclusive.
+                r['status'] = 'INCOMPLETE'
+                r['detail'] = f'model replays to the listed finding {tag}; symbolic signature differed (engine approximation) - inconclusive'
+                engine_notes.append(f"{r['shard']}: {r['detail']}")
+                log(f"  note: {r['shard']}: {r['detail']}")
             else:
                 h = hashlib.sha1(json.dumps(item, sort_keys=True).encode()).hexdigest()[:10]
                 path = f'{ROOT}/replays/{prop}-{h}.json'
@@ -241,7 +247,7 @@ def main(argv):
             'shards': [{k: r.get(k) for k in ('shard', 'status', 'paths', 'queries', 'solver_s', 'wall_s', 'twin', 'points', 'detail') if r.get(k) is not None} for r in results],
             'shards_confirmed': sum(1 for r in main_r if r['status'] == 'CONFIRMED'),
             'shards_incomplete': incomplete, 'twins_refuted': sum(1 for r in results if r.get('twin') and r['status'] == 'REFUTED'),
-            'known_findings_seen': known_seen, 'harness_errors': harness_errors, 'time_budget_scale': SCALE,
+            'known_findings_seen': known_seen, 'harness_errors': harness_errors, 'engine_notes': engine_notes, 'time_budget_scale': SCALE,
         },
         'assumptions': meta['assumptions'] + meta['stubs'],
         'wall_s': round(time.time() - t0, 1), 'violations': len(violations),
